@@ -75,6 +75,85 @@ chk('C20', 'model_checking',
     TB + 'Thread switches only at line boundaries of the dispatch-path functions; functools internals atomic.',
     'TLA+ model checking of all interleavings + systematic schedule exploration with trace validation', 'DESIGN.md section 5 C20', 'threads')
 
+TERM = ('Trusted: TLC, PyTerm.tla (my semantics of the printed sub-language; cross-checked on every case against CPython '
+        'eval + typed equality, a disagreement is a machinery error), ast.parse/tokenize as lexer/parser, CPython. ')
+chk('C01', 'other',
+    'Trace validation against an executable semantics: every distinct pformat output over a bounded-exhaustive + random '
+    'universe of value trees x widths x ribbon x indent x sort is parsed (syntax only) and TLC decides '
+    'PyTerm!TEq(Denote(obs), value) (typed structural equality, sets as sets, dict order incl. key sorting); non-termination '
+    'and printer failures are violations.',
+    TERM, 'TLA+ batch evaluation of Denote/TEq (PyTerm.tla) on parsed outputs of the real pformat', 'DESIGN.md section 5 C01', 'terms')
+chk('C02', 'model_checking',
+    'StrSplit.tla transcribes str_to_lines branch by branch over character classes; TLC explores ALL class strings up to the '
+    'bound x max_len x quote x str/bytes x pattern and checks conservation, no-empty-piece and a lexicographic termination '
+    'variant; the real splitter is bound to the model line by line (DRIFT) and the literal pieces found in real pformat outputs '
+    '(six placements x every width) are judged by TLC (PiecesOK).',
+    TB + 'Character classes are realised by one representative each; tokenize/ast.literal_eval decode single pieces.',
+    'TLA+ model checking of the splitter + trace validation of real splitter runs and printed literal pieces', 'DESIGN.md section 5 C02', 'strsplit')
+chk('C03', 'other',
+    'For corpora of built-in, standard-library, subclass, commented and pretty_call values, every distinct output over widths '
+    '1..200 x ribbon x indent is parsed and compared by TLC with the syntax tree obtained at the reference configuration; the '
+    'indent-multiple clause is evaluated on every line. Together with C04 (the engine only picks layouts of the document) this '
+    'covers the sampled widths; it is trace validation, not a proof for all widths.',
+    TERM, 'TLA+ batch comparison of parsed outputs across layout configurations', 'DESIGN.md section 5 C03', 'terms')
+chk('C07', 'exploration',
+    'Stdlib.tla states the boundary grids and the field-dropping arithmetic of timedelta/datetime/time; TLC proves '
+    'Denote(View(x)) = x on the grids, emits them, and validates the keyword lists the real printers print for each descriptor; '
+    'all other bundled standard-library printers are explored over boundary instances x nesting contexts x widths with an eval '
+    'cross-oracle (per-type equality); totality (no internal printer failure) is checked on every print.',
+    'Faithfulness outside the datetime family is decided by Python eval + per-type equality, not by the specification.',
+    'TLC-generated descriptor grids replayed into the printers + trace validation (datetime family); eval oracle elsewhere', 'DESIGN.md section 5 C07', 'stdlib')
+chk('C08', 'other',
+    'Instances of plain / __repr__ / __str__ / both subclasses of every built-in base and an IntEnum, x base values x contexts '
+    'x widths: TLC decides Denote(obs) = <<"sub", qualified name, base value>> (PyTerm.tla).',
+    TERM, 'TLA+ batch evaluation of Denote/TEq on parsed outputs', 'DESIGN.md section 5 C08', 'terms')
+chk('C09', 'other',
+    'Random placements of comment()/trailing_comment() with adversarial texts on value skeletons x widths: TLC checks that the '
+    'commented output has the syntax tree of the uncommented one and that the words found in # comments are an order-preserving '
+    'merge of the attached texts (TermTrace!IsMerge); warnings/exceptions caused by comment text are violations.',
+    TERM, 'TLA+ batch validation (syntax equality + word-merge) of parsed outputs and comment tokens', 'DESIGN.md section 5 C09', 'terms')
+chk('C10', 'other',
+    'Container trees x max_seq_len in 1..maxlen+1 and None x widths x sort: TLC decides Denote(obs) = PyTerm!Truncate(value, N) '
+    'and that the truncation notices are exactly PyTerm!Dropped(value, N); None must equal a limit larger than every container.',
+    TERM, 'TLA+ batch evaluation of Truncate/Dropped on parsed outputs', 'DESIGN.md section 5 C10', 'terms')
+chk('C11', 'other',
+    'Container trees with unique leaves x depth in 0..height+2 x widths: TLC compares the parsed output with '
+    'PyTerm!CutSyn(value, d) (placeholders of the right type exactly at the cut); two recorded deviations (empty list/tuple and '
+    'str keys at the cut level) are known findings recognised by the spec itself.',
+    TERM, 'TLA+ batch evaluation of CutSyn on parsed outputs', 'DESIGN.md section 5 C11', 'terms')
+chk('C12', 'exploration',
+    'Design level: TLC checks ranking functions of the three loops (LayoutImplMC!Decreasing, StrSplit!Progress, Walk) on bounded '
+    'universes. Code level: executed source lines inside the package (sys.monitoring) for 27 parametrised families at sizes '
+    '6..48/96 under a hard step budget; growth per doubling must stay <= 16.',
+    'Exploration of families, not a proof of a growth law; a polynomial of degree <= 4 passes.',
+    'TLC ranking-function checks + executed-line counting of input families', 'DESIGN.md section 5 C12', 'cost')
+chk('C13', 'model_checking',
+    'Walk.tla: abstract Unfold (marker iff the node is on the DFS path) and the concrete visit-bracket machine of _run_pretty; '
+    'WalkMC checks concrete => abstract, visited = pending exits and no residue step by step for every graph of the universe; '
+    'every graph is printed twice by the real package and TLC compares the token sequence of the parsed output with Unfold and '
+    'the start/end/is_visited log with the machine (DRIFT).',
+    TB + 'Graphs exhaustive to 2 nodes (3 kinds) / 3 nodes (list, dict), random beyond.',
+    'TLA+ model checking of the traversal machine + trace validation of real prints and visit logs', 'DESIGN.md section 5 C13', 'walk')
+chk('C14', 'fault_enumeration',
+    'Every printer-invocation index of every tree/DAG of instrumented user objects (with/without trailing_comment, printers '
+    'accepting it or not) x exception classes is injected; TLC compares each faulty output with Walk!Unfold(graph, root, fault) '
+    '(baseline with exactly that invocation replaced by repr), the warning count, and the following fault-free print; WalkMC '
+    'model-checks the same fault plans on the concrete machine; non-Doc results are scenario-checked.',
+    TB + 'Faults are raised at the start of the failing printer call.',
+    'model-driven fault enumeration + TLA+ trace validation', 'DESIGN.md section 5 C14', 'walk')
+chk('C16', 'model_checking',
+    'Color.tla: abstract per-character style = innermost token annotation, strip = plain rendering, final reset; concrete colour '
+    'stack. ColorMC checks concrete => abstract over ALL well-nested streams up to the bound; the bytes really written (synthetic '
+    'streams x 32 attribute combinations, real values x every installed pygments style, true colours forced) are decoded by an '
+    'SGR state machine and judged by TLC (ColorTrace).',
+    TB + 'The SGR decoder is trusted.',
+    'TLA+ model checking of the colour stack + trace validation of decoded escape streams', 'DESIGN.md section 5 C16', 'color')
+chk('C17', 'other',
+    'pretty_call / pretty_call_alt with random args/kwargs forms and callables: TLC checks the call shape against the '
+    'stand-alone prints of the arguments; dataclass / attrs class definitions are ENUMERATED BY TLC from Extras.tla, '
+    'materialised, printed, and the printed keywords validated against Extras!Shown (+ reconstruction when Reconstructible).',
+    TERM, 'replay of TLC-generated class definitions + TLA+ validation of parsed outputs', 'DESIGN.md section 5 C17', 'extras')
+
 ALL = ['C%02d' % i for i in range(1, 21)]
 REASON_PENDING = 'check not built yet in this round; see DESIGN.md section 8 (order of work)'
 
@@ -93,6 +172,13 @@ def main():
             dict(name='registry', path='spec/Registry.tla', serves_properties=['C15'], kind_free_text='Registry.tla + RegistryMC.tla + RegistryTrace.tla (TLC); harness/checks/registry.py'),
             dict(name='threads', path='spec/RegistryThreads.tla', serves_properties=['C20'], kind_free_text='RegistryThreads.tla + RegistryThreadsTrace.tla (TLC); harness/sched.py deterministic scheduler'),
             dict(name='config', path='spec/Config.tla', serves_properties=['C18'], kind_free_text='Config.tla + ConfigMC.tla + ConfigTrace.tla (TLC)'),
+            dict(name='terms', path='spec/PyTerm.tla', serves_properties=['C01', 'C03', 'C08', 'C09', 'C10', 'C11'], kind_free_text='PyTerm.tla (Denote/TEq/Truncate/CutSyn) + TermTrace.tla batch validation by TLC; harness/pyterm.py extracts syntax terms'),
+            dict(name='strsplit', path='spec/StrSplit.tla', serves_properties=['C02'], kind_free_text='StrSplit.tla + StrSplitTrace.tla'),
+            dict(name='stdlib', path='spec/Stdlib.tla', serves_properties=['C07'], kind_free_text='Stdlib.tla grids/lemma/validation'),
+            dict(name='walk', path='spec/Walk.tla', serves_properties=['C13', 'C14'], kind_free_text='Walk.tla + WalkMC.tla + WalkTrace.tla'),
+            dict(name='color', path='spec/Color.tla', serves_properties=['C16'], kind_free_text='Color.tla + ColorMC.tla + ColorTrace.tla'),
+            dict(name='extras', path='spec/Extras.tla', serves_properties=['C17'], kind_free_text='Extras.tla (class definition enumeration + Shown)'),
+            dict(name='cost', path='spec/LayoutImplMC.tla', serves_properties=['C12'], kind_free_text='ranking functions (LayoutImplMC, StrSplit, WalkMC) + sys.monitoring line counts'),
             dict(name='history', path='spec/History.tla', serves_properties=['C19'], kind_free_text='History.tla (TLC) + fresh-interpreter baselines'),
         ],
         checks=[CHECKS[p] for p in ALL if p in CHECKS],
